@@ -100,7 +100,7 @@ theorem codecWF_iff (b : Bitmap) : Roaring.BitmapWF b ↔ Bitmap.WF b := by
 /-- the checked decoder reads the serialisation of a well-formed value back as that value (C05) -/
 theorem C19_decode (dbg : Bool) (b : Bitmap) (h : Bitmap.WF b) :
     deserialize true dbg (Bitmap.serialize b) = .ok (b, []) := by
-  have := C05.C05_decode true dbg b ((codecWF_iff b).2 h) []
+  have := C05.C05_decode true dbg b h []
   simpa using this
 
 /-- **Round trip through the visitor** for every well-formed value and every way a `Deserializer` can deliver
